@@ -23,6 +23,8 @@ func main() {
 	repo := flag.String("repo", "/repo", "repository root to analyse")
 	verif := flag.String("verif", "/verif", "verification directory (evidence, known findings)")
 	list := flag.Bool("list", false, "list claimed properties")
+	verbose := flag.Bool("v", false, "print every obligation")
+	explain := flag.String("explain", "", "violations file: re-run and print all obligations")
 	flag.Parse()
 	if *list {
 		var ids []string
@@ -43,6 +45,7 @@ func main() {
 	}
 	seed, _ := strconv.ParseInt(os.Getenv("VERIF_SEED"), 10, 64)
 	run := report.NewRun(*prop, *tier, seed, *verif)
+	run.Verbose = *verbose || *explain != ""
 	run.CheckerCmd = "bin/vcheck " + strings.Join(os.Args[1:], " ")
 	run.Trusted = []string{
 		"go/types type checker and go/ssa construction (golang.org/x/tools v0.29.0)",
